@@ -488,3 +488,47 @@ def public_hash_writers(ctx):
                     ctx.violate(q, 'public_hash is taken from the address (`%s`)' % txt[:80], a_,
                                 'a P2SH-P2WPKH input given with its address signs over the script code of the script hash: valid for the library, rejected by the network')
     ctx.floor(n, 4, 'assignments to Input.public_hash')
+
+
+@PROP.obligation('C01.unique-indexes', canaries=[
+    mut.replace_expr('transactions', 'Transaction.__init__', 'list(dict.fromkeys(id_list)) != id_list', 'len(id_list) > 1 and len(set(id_list)) == 1', 'inputs renumbered only when ALL carry the same index'),
+])
+def unique_indexes(ctx):
+    """Transaction.raw(sign_id) puts the script code into every input whose index_n equals sign_id, sign() addresses inputs by position and
+    verify() by index_n: the digest of input i is the digest of exactly one input only while the index_n values are unique. The constructor
+    therefore renumbers the inputs whenever ANY index occurs twice (evaluated on index lists: 0,1,0 / 0,0,1,2 / 0,0 must renumber;
+    0,1,2 / 5 / empty must not)."""
+    q = 'transactions:Transaction.__init__'
+    fn = ctx.repo.func(q)
+    ifs = [n for n in walk_no_nested(fn) if isinstance(n, ast.If) and any(isinstance(x, ast.Name) and x.id == 'id_list' for x in ast.walk(n.test))]
+    if len(ifs) != 1:
+        ctx.undecided('Transaction.__init__: test that decides about renumbering the inputs not found')
+    renum = any(isinstance(x, (ast.Assign, ast.AugAssign)) and 'index_n' in norm(x) for x in ast.walk(ifs[0]))
+    if not renum:
+        ctx.undecided('Transaction.__init__: the guarded block does not renumber index_n')
+    res = {}
+    for ids, want in (([0, 1, 0], True), ([0, 0, 1, 2], True), ([0, 0], True), ([3, 1, 3, 1], True), ([0, 1, 2], False), ([5], False), ([], False), ([2, 0, 1], False)):
+        it = Interp(ctx.repo, 'transactions', self_cls='transactions:Transaction')
+        st = State(env={'id_list': list(ids), 'self': S(SELF)})
+        try:
+            v = it.truth(it.eval(ifs[0].test, st), st)
+        except AnalysisError as e:
+            ctx.undecided('renumbering test not evaluable: %s' % str(e)[:80])
+        if not isinstance(v, bool):
+            ctx.undecided('renumbering test `%s` not decidable for %s' % (norm(ifs[0].test), ids))
+        res[tuple(ids)] = v
+        ctx.require(v is want, q, 'inputs with the index numbers %s are %srenumbered (test `%s`)' % (ids, '' if v else 'not ', norm(ifs[0].test)[:80]), ifs[0],
+                    'Transaction(t1.inputs + t2.inputs, ...): two inputs share index_n, the legacy preimage carries the script code in two slots and verify() checks input i against the digest of another input'
+                    if want else 'unique index numbers given by the caller are overwritten')
+    ctx.saw('renumbering decided for %d index lists: %s' % (len(res), res))
+
+
+@PROP.obligation('C01.loop-fresh', canaries=[
+    mut.replace_stmt('services.services', 'Service.getinputvalues', 'if i.prev_txid not in prev_txs and i.prev_txid != 32 * b', 'if i.prev_txid not in prev_txs and i.prev_txid != 32 * b"\\0":\n    prev_t = self.gettransaction(i.prev_txid.hex())\n    prev_txs.append(i.prev_txid)', 'amount of an input taken from the previous transaction fetched last'),
+])
+def loop_fresh(ctx):
+    """Per-input data that enter the digest (the amount of the spent output that Service.getinputvalues fills in, keys, script codes) are
+    computed for THIS input: in transactions.py and services/services.py no variable that is assigned only inside a per-item loop is read
+    on a path of an iteration that did not assign it."""
+    from .common_loopfresh import loop_fresh as run
+    run(ctx, ['transactions', 'services.services'], 'the BIP143 amount of an input is the value of an output of ANOTHER previous transaction: verify() rejects a valid transaction, sign() signs over the wrong amount')
